@@ -23,7 +23,8 @@ TILT_RAD = 2e-6  # twice the property's margin
 TILT_VARIANT = 9
 
 LAWS_A = ["InvLatSwap", "InvLatRotZ", "InvLatFlip", "InvTopWithin", "InvLatDominates", "InvLatOrder", "InvArcMargin"]
-LAWS_T = ["InvSwapEnds", "InvRotZ", "InvRot24", "InvPartition", "InvAntipode", "InvCone", "InvTripleMargin"]
+LAWS_T = ["InvSwapEnds", "InvRotZ", "InvRot24", "InvPartition", "InvAntipode", "InvCone", "InvTripleMargin", "InvShrinkTriple", "InvShrinkLat"]
+LAW_SHRINK_PAIR = "InvShrinkPair"  # only where K = KP = 1 (the crossing direction is of degree 4 in K)
 LAWS_P = ["InvSignIsDefinitional", "InvPairSwapArcs", "InvPairSwapEnds", "InvPairRotZ", "InvPairRot24", "InvPairMargin"]
 
 CLASS_OF_DIGIT = {"1": "Interior", "2": "OnCircleOutside", "3": "Off", "4": "Endpoint", "5": "InsideMargin", "0": "NotAPoint"}
@@ -58,6 +59,8 @@ def scope(ctx, K, KP=None, stages=(), first_canon=False, pair_canon=False, emit_
             invs += LAWS_T
         if "P" in stages:
             invs += LAWS_P
+            if K == 1 and KP == 1:
+                invs.append(LAW_SHRINK_PAIR)
     elif laws:
         invs += list(laws)
     if emit_arcs:
@@ -385,3 +388,142 @@ def plane_residual_pair(a, b, c, d, v, kz, th):
     x = np.cross(n1, n2)
     x = x / np.linalg.norm(x)
     return max(abs(float(np.dot(n1, x))), abs(float(np.dot(n2, x))))
+
+
+# ------------------------------------------------------------------------------- shrunk arcs
+S_KS = [1, 3, 5]  # M = 10^k: arc lengths from ~1e-1 down to ~1e-6 rad
+SM_VARIANTS = ["base", "swapEnds", "jitter"]
+SX_VARIANTS = ["base", "swapEnds1", "swapArcs", "jitter"]
+SL_VARIANTS = ["base", "swapEnds", "jitter"]
+
+
+def shr(M, w, a):
+    """M w + a in exact (Python) integers; all coordinates stay far below 2^53."""
+    return [M * int(w[i]) + int(a[i]) for i in range(3)]
+
+
+def replay_sm(rec):
+    """rec: id, K, a, b, p (interior lattice point, decided by TLC), qidx, ks, jseed"""
+    import numpy as np
+
+    pw = fns()["pw"]
+    a, b, p, K, js = rec["a"], rec["b"], rec["p"], rec["K"], rec.get("jseed", 0)
+    nv = len(SM_VARIANTS)
+    rp, tp, rq = [], [], []
+    for ki, k in enumerate(rec["ks"]):
+        A, B = shr(10 ** k, p, a), shr(10 ** k, p, b)
+
+        def ask(q, j):
+            out = []
+            for v in range(nv):
+                if v == 0:
+                    pt, gca = unit(q), np.array([unit(A), unit(B)])
+                elif v == 1:
+                    pt, gca = unit(q), np.array([unit(B), unit(A)])
+                else:
+                    rng = jrng(js, 1000 * ki + j)
+                    ja, jb, jq = jitter(unit(A), rng), jitter(unit(B), rng), jitter(unit(q), rng)
+                    pt, gca = jq, np.array([ja, jb])
+                try:
+                    out.append(1 if bool(pw(pt, gca)) else 0)
+                except Exception:  # noqa
+                    out.append(2)
+            return out
+
+        rp.append(ask(p, 0))
+        pt, gca = tilt_inputs(A, B, p, ki)
+        try:
+            tp.append(1 if bool(pw(pt, gca)) else 0)
+        except Exception:  # noqa
+            tp.append(2)
+        cols = [ask(vec_of_index(i, K), j + 1) if vec_of_index(i, K) != [0, 0, 0] else [0] * nv for j, i in enumerate(rec["qidx"])]
+        rq.append([[c[v] for c in cols] for v in range(nv)])
+    return {"kind": "SM", "id": rec["id"], "K": K, "a": a, "b": b, "p": p, "ks": rec["ks"], "qidx": rec["qidx"],
+            "rp": rp, "tp": tp, "r": rq, "nx": 2, "jv": 3}
+
+
+def replay_sx(rec):
+    """rec: id, a, b, o, x (exact crossing directions from TLC, already the crossing one: +x or -x), tok, ks, jseed"""
+    import numpy as np
+
+    from . import lattice
+
+    gi = fns()["gi"]
+    a, b, js = rec["a"], rec["b"], rec.get("jseed", 0)
+    out = []
+    for j, ((c, d), x, w) in enumerate(zip(rec["o"], rec["x"], rec["w"])):
+        n1 = np.cross(unit(a), unit(b))
+        n2 = np.cross(unit(c), unit(d))
+        sin_th = float(np.linalg.norm(np.cross(n1 / np.linalg.norm(n1), n2 / np.linalg.norm(n2))))
+        xu = unit(x)
+        rows = []
+        for ki, k in enumerate(rec["ks"]):
+            M = 10 ** k
+            A, B, C, D = (shr(M, w, e) for e in (a, b, c, d))
+            # the floats of the shrunk endpoints carry ~1e-16 of rounding, which turns the planes of arcs of length
+            # len by ~1e-16/len: the crossing point of the *float* arcs is only that close to the exact x
+            ln = min(lattice.ang_between(unit(A), unit(B)), lattice.ang_between(unit(C), unit(D)))
+            tol = POINT_TOL + 2e-15 / (ln * sin_th)
+            row = []
+            for v in range(len(SX_VARIANTS)):
+                if v == 0:
+                    g1, g2 = np.array([unit(A), unit(B)]), np.array([unit(C), unit(D)])
+                elif v == 1:
+                    g1, g2 = np.array([unit(B), unit(A)]), np.array([unit(C), unit(D)])
+                elif v == 2:
+                    g1, g2 = np.array([unit(C), unit(D)]), np.array([unit(A), unit(B)])
+                else:
+                    rng = jrng(js, 1000 * ki + j)
+                    g1 = np.array([jitter(unit(A), rng), jitter(unit(B), rng)])
+                    g2 = np.array([jitter(unit(C), rng), jitter(unit(D), rng)])
+                try:
+                    res = np.asarray(gi(g1, g2), dtype=float)
+                    if res.size == 0:
+                        row.append([0, 0, 0])
+                    else:
+                        res = res.reshape(-1, 3)
+                        toks = []
+                        for q in res[:2]:
+                            ok = np.all(np.isfinite(q))
+                            toks.append(1 if ok and np.max(np.abs(q - xu)) <= tol else 2 if ok and np.max(np.abs(q + xu)) <= tol else 0)
+                        toks += [0, 0]
+                        row.append([int(res.shape[0]), toks[0], toks[1]])
+                except Exception:  # noqa
+                    row.append([-1, 0, 0])
+            rows.append(row)
+        out.append(rows)
+    return {"kind": "SX", "id": rec["id"], "a": a, "b": b, "o": rec["o"], "ks": rec["ks"], "r": out, "nx": 3, "jv": 4}
+
+
+def replay_sl(rec):
+    """rec: id, a, b, p, cand (TLC's descriptors of the base arc: [.., .., top, bottom]), ks, jseed"""
+    import numpy as np
+
+    ex = fns()["ex"]
+    a, b, p, js = rec["a"], rec["b"], rec["p"], rec.get("jseed", 0)
+    top, bottom = eval_lat(rec["cand"][2]), eval_lat(rec["cand"][3])
+    out = []
+    for ki, k in enumerate(rec["ks"]):
+        A, B = shr(10 ** k, p, a), shr(10 ** k, p, b)
+        la = math.atan2(A[2], math.hypot(A[0], A[1]))
+        lb = math.atan2(B[2], math.hypot(B[0], B[1]))
+        cand = {3: top, 4: bottom, 5: max(la, lb), 6: min(la, lb)}
+        rows = []
+        for v in range(len(SL_VARIANTS)):
+            if v == 0:
+                gca = np.array([unit(A), unit(B)])
+            elif v == 1:
+                gca = np.array([unit(B), unit(A)])
+            else:
+                rng = jrng(js, ki)
+                gca = np.array([jitter(unit(A), rng), jitter(unit(B), rng)])
+            row = [[], [], 0]
+            for t, typ in enumerate(("max", "min")):
+                try:
+                    val = float(ex(gca, typ))
+                    row[t] = [w for w in (3, 4, 5, 6) if abs(val - cand[w]) <= LAT_TOL]
+                except Exception:  # noqa
+                    row[2] = 1
+            rows.append(row)
+        out.append(rows)
+    return {"kind": "SL", "id": rec["id"], "a": a, "b": b, "p": p, "ks": rec["ks"], "r": out, "nx": 2, "jv": 3}
